@@ -49,7 +49,8 @@ class Adapter:
         cfg = dict(cfg)
         cfg["gran"] = 8
         cfg["dw"] = 8 * cfg["g"]
-        cfg["subs"] = [dict(s, dw=cfg["dw"], gran=8, explicit=True) for s in cfg["subs"]]
+        # dense: same port size as the decoder; sparse: a one-granule-wide subordinate
+        cfg["subs"] = [dict(s, dw=cfg["dw"] if s["dense"] else 8, gran=8, explicit=True) for s in cfg["subs"]]
         return cfg
 
     def build(self, cfg):
